@@ -386,6 +386,19 @@ def cmp_oracle(case):
         want = "Greater" if o > 0 else "Less"
         if impl.split()[:1] != [want]:
             out.append((i, "events at one point ordered against the exact orientation: got %s, the exact order is %s" % (impl[:20], want)))
+    # `pyevanti k1 k2`: the event order is antisymmetric on two events of different operands
+    # (`C15_cmp_antisymmetric`: the last tie-break puts the subject first)
+    for i, ch in enumerate(case.checks):
+        if not ch.startswith("pyevanti"):
+            continue
+        _, k1, k2 = ch.split()
+        t = case.reqs.get(k1, "").split()
+        if len(t) != 16 or t[0] != "CMPEV" or t[5] == t[12]:
+            continue
+        r1, r2 = case.impl.get(k1, "").split()[:1], case.impl.get(k2, "").split()[:1]
+        opposite = {"Less": "Greater", "Greater": "Less"}
+        if r1 and r2 and (r1[0] not in opposite or r2 != [opposite[r1[0]]]):
+            out.append((i, "the event order is not antisymmetric on two events of different operands: (a,b) gives %s, (b,a) gives %s" % (r1[0], r2[0] if r2 else "?")))
     # `pyseg k`: the vertical order of two segments at the abscissa where the later one starts, wherever that
     # order is strict (exact rational arithmetic): compare_segments must say the lower one is below
     for i, ch in enumerate(case.checks):
@@ -619,6 +632,28 @@ def order_cases(rng, n):
             c.check("pyseg %d" % ka)
             c.check("pyseg %d" % kb)
             c.run("CMPSEG f64 1 %s" % _event(a, b, s1, 2))
+        for _ in range(6):
+            # two events at one point, different operands: both segments vertical, both with the same far end,
+            # one vertical; left events and right events
+            p = (rng.randint(-3, 3), rng.randint(-3, 3))
+            kind = rng.choice(["vv", "same", "v1", "any"])
+            sgn = rng.choice([1, -1])
+            if kind == "vv":
+                q1, q2 = (p[0], p[1] + sgn * rng.randint(1, 4)), (p[0], p[1] + sgn * rng.randint(1, 4))
+            elif kind == "same":
+                q1 = (p[0] + sgn * rng.randint(1, 4), p[1] + rng.randint(-3, 3))
+                q2 = q1
+            elif kind == "v1":
+                q1, q2 = (p[0], p[1] + sgn * rng.randint(1, 4)), (p[0] + sgn * rng.randint(0, 3), p[1] + sgn * rng.randint(1, 4))
+            else:
+                q1 = (p[0] + sgn * rng.randint(1, 4), p[1] + rng.randint(-3, 3))
+                q2 = (p[0] + sgn * rng.randint(1, 4), p[1] + rng.randint(-3, 3))
+            def evp(pp, qq, subj, cid):
+                return "%s %s %s %d %s" % (_pt(pp), "L" if _before(pp, qq) else "R", "S" if subj else "C", cid, _pt(qq))
+            e1, e2 = evp(p, q1, True, 1), evp(p, q2, False, 2)
+            k1 = c.run("CMPEV f64 %s %s" % (e1, e2))
+            k2 = c.run("CMPEV f64 %s %s" % (e2, e1))
+            c.check("pyevanti %d %d" % (k1, k2))
         for _ in range(8):
             # T-junctions: an end point of one segment in the interior of the other
             (p1, q1), (p2, q2) = _tjunction_pair(rng, "f64")
